@@ -157,6 +157,28 @@ def run(ctx):
     else:
         ctx.fail("R08.c", setter, setter.node, "Parameter.__set__ no longer consults the syncing set: every propagated update drops the link")
 
+    # the scope that marks the sync's own writes must itself be exception safe
+    # (an instance of R05.a/R05.b on the syncing set): a leaked marker makes every
+    # later override look like a sync write, so the link never ends
+    from checks.c05 import find_scopes
+    sc = [x for x in find_scopes(ctx) if x.fld == "private.syncing"]
+    ctx.require(sc, "no function toggles the syncing set")
+    for x in sc:
+        bad = None
+        orig_ids = {w.id for w in x.orig}
+        if not x.orig:
+            bad = x.temp[0]
+        for wt in x.temp:
+            for r in x.cfg.reachable_from([wt], stop=lambda n: n.id in orig_ids, labels={"n", "t", "f"}):
+                if r.may_raise and r.id not in orig_ids and x.protected(r) is None:
+                    bad = bad or r
+        if bad is not None:
+            ctx.fail("R08.c", x.f, bad, "the syncing marker set by %s is not removed when `%s` raises: the name stays marked as syncing, later plain assignments are taken "
+                                        "for sync writes and never end the link" % (x.f.name, bad.text()[:60]), key="%s::syncing-leak" % x.f.qualname,
+                     input="source pushes a value the target rejects (ValueError), then t.a = 7, then the source changes -> a is overwritten, link still alive")
+        else:
+            ctx.ok("R08.c", x.f, x.temp[0], "the syncing marker is removed on every exit of the scope")
+
 
 def _enclosing(fnode, target):
     out = []
@@ -171,3 +193,4 @@ def _enclosing(fnode, target):
         return False
     visit(fnode, [])
     return out
+
